@@ -211,9 +211,13 @@ def run_acceptor(ae, factory_plan, max_pdu_length=None, lazy=False):
     acc = None
     with installed(fac):
         try:
-            acc = asceprovider.AssociationAcceptor(FakeRequest(), ('127.0.0.1', 40000), ae,
-                                                   max_pdu_length if max_pdu_length is not None
-                                                   else ae.max_pdu_length)
+            if max_pdu_length is None and hasattr(ae, 'RequestHandlerClass'):
+                # exactly what the entity's own server does for an incoming connection
+                acc = ae.RequestHandlerClass(FakeRequest(), ('127.0.0.1', 40000), ae)
+            else:
+                acc = asceprovider.AssociationAcceptor(FakeRequest(), ('127.0.0.1', 40000), ae,
+                                                       max_pdu_length if max_pdu_length is not None
+                                                       else ae.max_pdu_length)
         except BaseException as e:      # noqa - surfaced to the caller
             exc = e
     return acc, fac, exc
